@@ -17,7 +17,8 @@ Inductive err :=
 | EKey       (* KeyError in the VM: increment of a register that was never set / jump to an unknown label *)
 | EIndex     (* IndexError: command channel outside the VM's channel list / transformation list *)
 | EDiv       (* ZeroDivisionError: amplitude 0 in the hardware scaling *)
-| ENotImpl   (* NotImplementedError: Play command in the VM (only in the definitions translated from the source) *)
+| ENotImpl   (* NotImplementedError: Play command in the VM / index dependent hold duration (translated definitions) *)
+| ERuntime   (* RuntimeError: voltage transformation on an Increment (only in the definitions translated from the source) *)
 | EFuel.     (* model only: the fuel given to run_vm did not suffice *)
 
 Inductive res (A : Type) := Ok (a : A) | Err (e : err).
